@@ -2,6 +2,7 @@
 //! of the binary crate's src/specialized_methods/mod.rs, compiled into this harness.
 #![allow(dead_code, unused_imports, unused_variables)]
 mod asm;
+mod det;
 mod gen;
 mod oracle;
 mod spec;
@@ -349,14 +350,29 @@ fn run(ctx: &Ctx) -> anyhow::Result<Report> {
 	corpus(&mut r, &mut rng)?;
 	big_corpus(&mut r, &mut rng, ctx.thorough);
 
+	// the deterministic shapes (harness/src/bin/c15/det.rs)
+	for d in det::det_cases() {
+		let wf = oracle::jar_wf(&d.g.classes);
+		let files = assemble_jar(&d.g.classes, &mut rng);
+		let jar = mem_jar(&files);
+		r.count(&format!("det:{}", d.label.split(|c: char| c == ' ' || c == ':').next().unwrap_or("")));
+		do_spec(&mut r, "det", &d.g.classes, &jar, wf);
+		if d.maps.is_empty() {
+			let (cal, maps) = gen_maps(&mut rng, &d.g, &MapCfg { name_12: 10, swap_calamus: false, swap_named: false, absent_class_names: false });
+			do_add(&mut r, "det-add", &d.g, &jar, &[], &cal, &maps, wf);
+		}
+		for (cal, maps) in &d.maps { do_add(&mut r, "det-add", &d.g, &jar, &[], cal, maps, wf); }
+	}
+
 	let n = if ctx.thorough { 2400 } else { 300 };
 	let mut counts: Vec<String> = vec![];
 	for i in 0..n {
-		let stream = match i % 20 { 0..=13 => "patterns", 14 | 15 => "large", 16 | 17 => "dups", 18 => "swapped", _ => "badns" };
+		let stream = match i % 20 { 0..=8 => "patterns", 9..=13 => "dag", 14 | 15 => "large", 16 | 17 => "dups", 18 => "swapped", _ => "badns" };
 		let cfg = match stream {
-			"large" => JarCfg { max_classes: 8, max_patterns: 14, dups: false, libs: true },
-			"dups" => JarCfg { max_classes: 4, max_patterns: 8, dups: true, libs: false },
-			_ => JarCfg { max_classes: 5, max_patterns: 6, dups: false, libs: true },
+			"large" => JarCfg { max_classes: 8, max_patterns: 14, dups: false, libs: true, dag: i % 40 >= 20 },
+			"dups" => JarCfg { max_classes: 4, max_patterns: 8, dups: true, libs: false, dag: false },
+			"dag" => JarCfg { max_classes: 8, max_patterns: 6, dups: false, libs: false, dag: true },
+			_ => JarCfg { max_classes: 5, max_patterns: 6, dups: false, libs: true, dag: false },
 		};
 		let g = gen_jar(&mut rng, &cfg, &mut |k| counts.push(k.to_string()));
 		let wf = oracle::jar_wf(&g.classes);
@@ -369,7 +385,7 @@ fn run(ctx: &Ctx) -> anyhow::Result<Report> {
 		do_spec(&mut r, stream, &g.classes, &jar, wf);
 		let reps = if stream == "large" { 1 } else { 2 };
 		for _ in 0..reps {
-			let mut mcfg = MapCfg { name_12: *rng.pick(&[0, 4, 8, 10, 12][..]), swap_calamus: false, swap_named: false, absent_class_names: stream != "patterns" };
+			let mut mcfg = MapCfg { name_12: *rng.pick(&[0, 4, 8, 10, 12][..]), swap_calamus: false, swap_named: false, absent_class_names: stream != "patterns" && stream != "dag" };
 			let mut oracle_ok = wf;
 			if stream == "swapped" { mcfg.swap_calamus = rng.chance(2, 3); mcfg.swap_named = !mcfg.swap_calamus || rng.chance(1, 3); oracle_ok = false; }
 			let (mut cal, mut maps) = gen_maps(&mut rng, &g, &mcfg);
